@@ -5,10 +5,12 @@ pub mod c03;
 pub mod c04;
 pub mod c05;
 pub mod c06;
+pub mod c07;
 pub mod c09;
 pub mod c11;
 pub mod c12;
 pub mod c13;
+pub mod c15;
 pub mod c16;
 pub mod c17;
 pub mod c18;
@@ -22,10 +24,12 @@ pub fn run(prop: &str, ctx: &mut Ctx) -> bool {
         "C04" => c04::run(ctx),
         "C05" => c05::run(ctx),
         "C06" => c06::run(ctx),
+        "C07" => c07::run(ctx),
         "C09" => c09::run(ctx),
         "C11" => c11::run(ctx),
         "C12" => c12::run(ctx),
         "C13" => c13::run(ctx),
+        "C15" => c15::run(ctx),
         "C16" => c16::run(ctx),
         "C17" => c17::run(ctx),
         "C18" => c18::run(ctx),
